@@ -51,6 +51,24 @@ Fixpoint run_ops (c : cfg) (fs : list file) (s : state) (i : nat) (ops : list op
       show_load (List.length fs) c r :: run_ops c fs (snd r) (S i) t
   end.
 
+(* histories over several languages *)
+Definition show_repos (nf nl : nat) (mc : mlcfg) (s : state) (repos : list (nat * list (nat * nat))) : string :=
+  sjoin ";" (map (fun L => if lglob mc L then show_dict nf (mkCfg true false []) s (repo_of repos L) else "-") (seq 0 nl)).
+Fixpoint run_ops_ml (mc : mlcfg) (fs : list file) (ms : state * list (nat * list (nat * nat))) (i : nat) (ops : list op) : list string :=
+  match ops with
+  | [] => []
+  | OWrite f fc :: t => "w" :: run_ops_ml mc (set_nth f fc fs) ms (S i) t
+  | OLoad f :: t =>
+      let r := ml_load fs mc f (at_op (fst ms) i, snd ms) in
+      let c := mkCfg (lglob mc (lang mc f)) false [] in
+      (show_load (List.length fs) c (fst r, fst (snd r)) ++ "|" ++
+       show_repos (List.length fs) (List.length (lglobal mc)) mc (fst (snd r)) (snd (snd r)))
+      :: run_ops_ml mc fs (snd r) (S i) t
+  | OLoadStr _ :: t => "?" :: run_ops_ml mc fs ms (S i) t
+  end.
+Definition run_case_ml (lg : list bool) (lo : list nat) (fs : list file) (ops : list op) : string :=
+  sjoin " # " (run_ops_ml (mkML lg lo) fs (init_state [], []) 0 ops).
+
 Definition run_case (glob lazy : bool) (builtins : list file) (fs : list file) (ops : list op) : string :=
   sjoin " # " (run_ops (init_cfg glob lazy builtins) fs (init_state builtins) 0 ops).
 
@@ -61,5 +79,7 @@ Fixpoint hash_string (s : string) (h : N) : N :=
   | EmptyString => h
   | String a t => hash_string t (N.modulo (h * 1000003 + Ascii.N_of_ascii a) 1099511627776)
   end.
+Definition run_case_ml_hash (lg : list bool) (lo : list nat) (fs : list file) (ops : list op) : string :=
+  show_N (hash_string (run_case_ml lg lo fs ops) 7).
 Definition run_case_hash (glob lazy : bool) (builtins : list file) (fs : list file) (ops : list op) : string :=
   show_N (hash_string (run_case glob lazy builtins fs ops) 7).
